@@ -28,7 +28,10 @@ def gen_val(depth, setdepth):
 def gen_doc():
     nl = R.choice([0, 1, 1, 2, 2, 3])
     body = ('set', nl == 0 and R.random() < 0.4, gen_bindings(2, 2))
-    for _ in range(nl): body = ('let', gen_bindings(1, 0), body)
+    prev = None
+    for _ in range(nl):
+        bs = list(prev) if prev is not None and R.random() < 0.3 else gen_bindings(1, 0)        # sometimes the same names and values as the layer inside
+        body = ('let', bs, body); prev = bs
     return body
 def show(e):
     t = e[0]
